@@ -99,7 +99,7 @@ Print Assumptions C17_own_timer_clears.
 
 Example C17_nonvacuous :
   exists s os, srun (mkSCfg V2 1 0 true) (sinit (mkSCfg V2 1 0 true) 0 4)
-     [SAStart true; SILoopProvision; SICreateRet; SAGiveMe 4; SILease 3; SILeaseRet (15 * sec); SASetShared 2; SILoopProvision; SICreateRet;
+     [SAStart true; SILoopProvision; SICreateRet; SAGiveMe 4; SILease 3; SILeaseRet (15 * sec); SAGiveMe 0; SASetShared 2; SILoopProvision; SICreateRet;
       SASetReserved 7; STime (15 * sec); SIExpire 3] = Some (s, os)
     /\ length (s_parts s) = 2%nat /\ capacity s = 7.
 Proof. eexists. eexists. vm_compute. repeat split. Qed.
